@@ -48,7 +48,7 @@ func emptyAlt() SAlt         { return SAlt{Empty: true} }
 func errAlt(syms ...Sym) SAlt { return SAlt{Err: true, Body: syms} }
 
 // Families is the list of template families GenSyntax knows.
-var Families = []string{"expr", "list", "stmts", "brackets", "random", "lr1notlalr", "nullable", "long", "random", "random", "nulllist", "nulllist", "nulltails", "lr2", "wide", "firstchain", "errorder", "optafter"}
+var Families = []string{"expr", "list", "stmts", "brackets", "random", "lr1notlalr", "nullable", "long", "random", "random", "nulllist", "nulllist", "nulltails", "lr2", "wide", "firstchain", "errorder", "optafter", "errdeep"}
 
 // BoundaryFamilies are shapes near the LR(1) boundary (used on top of Families by C04).
 var BoundaryFamilies = []string{"lr1notlalr", "cyclic", "rr1la", "nullconflict", "nullable", "random", "expr", "nulltails", "nulllist", "lr2"}
@@ -88,6 +88,8 @@ func GenSyntax(r *rand.Rand, o SynGenOpts) *Grammar {
 		g = s.errOrder()
 	case "optafter":
 		g = s.optAfter()
+	case "errdeep":
+		g = s.errDeep()
 	case "wide":
 		g = s.wide()
 	case "cyclic":
@@ -356,6 +358,25 @@ func (s *synGen) optAfter() *Grammar {
 	}
 	if s.r.Intn(2) == 0 {
 		g.NTs[2].Alts[0], g.NTs[2].Alts[1] = g.NTs[2].Alts[1], g.NTs[2].Alts[0]
+	}
+	return g
+}
+
+// errDeep: the error alternatives are only reachable after some tokens have been shifted, so
+// the start state (and the states of the opening tokens) cannot recover, while deeper ones can.
+func (s *synGen) errDeep() *Grammar {
+	s.pickTerminals(6)
+	t := s.terms
+	g := &Grammar{NTs: []*NTDef{
+		{Head: "U", Alts: []SAlt{alt(t[0], t[1], nt("L"), t[2]), alt(t[3], nt("U"))}},
+		{Head: "L", Alts: []SAlt{alt(nt("I")), alt(nt("L"), nt("I"))}},
+		{Head: "I", Alts: []SAlt{alt(t[4], t[5]), errAlt(t[5])}},
+	}}
+	if s.r.Intn(2) == 0 {
+		g.NTs[2].Alts = append(g.NTs[2].Alts, alt(t[1], nt("L"), t[2]))
+	}
+	if s.r.Intn(3) == 0 {
+		g.NTs[2].Alts[1] = errAlt()
 	}
 	return g
 }
